@@ -100,7 +100,7 @@ def is_ambiguous(step, res_s):
     return False
 
 
-def work(state_hists, open_ids, kd, menu_name):
+def work(state_hists, open_ids, kd, menu_name, quick=False):
     """state_hists: list of source-state histories; all their outgoing transitions are checked here"""
     import pandas
 
@@ -153,6 +153,9 @@ def work(state_hists, open_ids, kd, menu_name):
             if isinstance(b, dict) and "table" in b:
                 need |= set(H.hist_tables(b))
             datas = inputs.data_maps(sorted(need), kd, 1, inputs.D_ROWS_Q, inputs.E_ROWS_Q)
+            if quick:
+                # the empty table, every single row, and the two-row tables made of two different rows
+                datas = [dm for dm in datas if len(dm["d"]["rows"]) < 2 or dm["d"]["rows"][0] != dm["d"]["rows"][1]]
             if step.get("order_by") or any(st.get("order_by") for st in hist["steps"]):
                 # window orders need null-free, tie-free rows whose two numeric columns sort differently
                 datas = datas + [dm for dm in inputs.data_maps(sorted(need), kd, 1, inputs.D_ROWS_NN[:1] + inputs.D_ROWS_NN[2:], inputs.E_ROWS_Q) if len(dm["d"]["rows"]) > 0]
@@ -220,7 +223,7 @@ def run(tier):
                 hists.append(s2.hist)
     hists = core.rotate(hists, run.seed)
     kd = 2
-    for p in core.pmap(work, [([h], list(run.open_findings), kd, "c06") for h in hists]):
+    for p in core.pmap(work, [([h], list(run.open_findings), kd, "c06", tier == "quick") for h in hists]):
         run.merge(p)
     run.set("states", len(hists))
     run.set("transitions", run.cov.get("transitions_checked", 0))
@@ -232,7 +235,7 @@ def run(tier):
         exhaustive=True,
         rule=f"every outgoing transition (core menu + simplification entries: common-target extends, reads of replaced columns, swaps, re-selection/drop/order of columns an earlier select/drop removed, checked joins) of every state at depth <= {src_depth}"
         + (" (depth-2 sources: all two-step chains over the simplification source menu of extends, windows, select/drop/rename and order_rows)" if tier != "quick" else "")
-        + f", each on all multisets of <= {kd} rows over the 3-row alphabets (transitions involving an ordered window also on all multisets of <= {kd} rows of a null-free 3-row alphabet whose numeric columns sort differently)",
+        + f", each on {'the empty table, every single row and every pair of different rows' if tier == 'quick' else f'all multisets of <= {kd} rows'} over the 3-row alphabets (transitions involving an ordered window also on all multisets of <= {kd} rows of a null-free 3-row alphabet whose numeric columns sort differently)",
     )
 
 
